@@ -4,6 +4,7 @@ package main
 
 import (
 	"net/http"
+	"strconv"
 	"time"
 
 	"github.com/glyphlang/glyph/internal/zzverif"
@@ -172,8 +173,12 @@ func VerifC11_EvictionKeepsRecentClients() {
 	a0 := zzBurst(h, "10.0.0.1:1", 10, &runs) // X uses its budget up
 	zzverif.Assert(a0 == n, "eviction: first burst not N")
 	others := 3 + zzverif.Choice("others", 3)
+	if !zzverif.Symbolic() {
+		others = 10050 // natively the real cap (10000 entries) applies
+	}
 	for k := 0; k < others; k++ {
-		zzServe(h, &http.Request{Method: "GET", Header: http.Header{}, RemoteAddr: "10.0.1." + string(rune('1'+k)) + ":1"})
+		addr := "10." + strconv.Itoa(1+k/60000) + "." + strconv.Itoa((k/250)%240) + "." + strconv.Itoa(1+k%250) + ":1"
+		zzServe(h, &http.Request{Method: "GET", Header: http.Header{}, RemoteAddr: addr})
 	}
 	zzverif.AdvanceClock(time.Duration(zzverif.Choice("pause", 2)) * time.Second)
 	a1 := zzBurst(h, "10.0.0.1:2", 10, &runs)
